@@ -88,6 +88,8 @@ class PathCtx:
                 self.lin.add(f)
         self.trace = []            # branch labels taken (for reporting)
         self.frozen = {}           # id(container) -> description (parameter-owned mutable containers)
+        self.frozen_qty = {}       # id(Qty) -> description (parameter-owned Quantity objects)
+        self.frozen_keep = []      # keeps those objects alive so that ids are not recycled
         self.dirty_roots = set()
         self.sanctioned = set()
         self.oblig_prefix = ""
